@@ -303,7 +303,7 @@ func (s *hnswIndexSearch) searchSingleQuery(query []float32) ([]VectorResult, er
 	if efSearch <= 0 {
 		efSearch = s.index.efSearch
 	}
-	candidates := s.index.searchLayer(preprocessedQuery, curr, efSearch, 0)
+	candidates := s.index.searchLayer(preprocessedQuery, curr, efSearch, 0, false)
 
 	// Create document filter for metadata pre-filtering
 	docFilter := NewDocumentFilter(s.documentIDs)
